@@ -34,6 +34,7 @@ import (
 	"github.com/magiconair/properties"
 	"github.com/whatap/golib/config"
 	"github.com/whatap/golib/config/conffile"
+	"github.com/whatap/golib/util/hash"
 	"github.com/whatap/golib/util/stringutil"
 	"verif/harness/vh"
 )
@@ -267,6 +268,8 @@ func (g getterCall) line() string {
 		return "G a " + encStr(g.key) + " " + encStr(g.def) + " " + encStr(g.deli)
 	case "s":
 		return "G s " + encStr(g.key) + " " + encStr(g.def) + " " + encStr(g.deli)
+	case "h":
+		return "G h " + encStr(g.key) + " " + encStr(g.def) + " " + encStr(g.deli)
 	}
 	panic("kind")
 }
@@ -292,6 +295,8 @@ func callGetter(c *conffile.FileConfig, g getterCall) (string, vh.Outcome) {
 			res = encList(c.GetStringArray(g.key, g.def, g.deli))
 		case "s":
 			res = encInts(c.GetIntSet(g.key, g.def, g.deli))
+		case "h":
+			res = encInts(c.GetStringHashSet(g.key, g.def, g.deli)) + "|" + encInts(c.GetStringHashCodeSet(g.key, g.def, g.deli))
 		}
 	})
 	return res, oc
@@ -303,7 +308,7 @@ var delis = []string{",", ";", ",;", "", " ", ", "}
 
 func genGetter(r *vh.Rng, key string) getterCall {
 	g := getterCall{key: key}
-	g.kind = r.PickStr([]string{"v", "d", "b", "i", "l", "f", "a", "s", "s"})
+	g.kind = r.PickStr([]string{"v", "d", "b", "i", "l", "f", "a", "s", "s", "h"})
 	g.def = r.PickStr(strDefs)
 	g.deli = r.PickStr(delis)
 	g.defB = r.Bool()
@@ -369,11 +374,27 @@ func specGetter(v string, g getterCall) string {
 		return encList(out)
 	case "s":
 		return encInts(specIntSet(vd, g.deli))
+	case "h":
+		var toks []string
+		for _, t := range stringutil.Tokenizer(vd, g.deli) {
+			toks = append(toks, strings.TrimSpace(t))
+		}
+		return hashBoth(toks)
 	}
 	return "?"
 }
 
-var getterName = map[string]string{"v": "GetValue", "d": "GetValueDef", "b": "GetBoolean", "i": "GetInt", "l": "GetLong", "f": "GetFloat", "a": "GetStringArray", "s": "GetIntSet"}
+// hashBoth applies the two hash functions of the hash-set getters to the tokens the model names.
+func hashBoth(toks []string) string {
+	var a, b []int32
+	for _, t := range toks {
+		a = append(a, hash.HashStr(t))
+		b = append(b, int32(stringutil.HashCode(t)))
+	}
+	return encInts(a) + "|" + encInts(b)
+}
+
+var getterName = map[string]string{"h": "GetStringHashSet/GetStringHashCodeSet", "v": "GetValue", "d": "GetValueDef", "b": "GetBoolean", "i": "GetInt", "l": "GetLong", "f": "GetFloat", "a": "GetStringArray", "s": "GetIntSet"}
 
 // addGetter calls the getter on the implementation, evaluates the property directly and queues the
 // model line.  valueOf gives what the configuration should hold for a key (nil: ask GetValue).
@@ -411,6 +432,15 @@ func (h *harness) addGetter(ce *cfgEnv, g getterCall, group int, ctx func() inte
 				return false
 			}
 			return fmt.Sprint(math.Float32bits(exp)) == want
+		}
+	}
+	if g.kind == "h" {
+		// the model names the tokens that are hashed; the hash functions themselves are the library's
+		c.cmp = func(got string) bool {
+			if strings.HasPrefix(got, "bad") {
+				return false
+			}
+			return hashBoth(decList(got)) == want
 		}
 	}
 	if g.kind == "s" {
@@ -469,7 +499,7 @@ func (h *harness) streamGetters() {
 		return os.Getenv(k)
 	}
 	for _, k := range keys {
-		for _, kind := range []string{"v", "d", "b", "i", "l", "f", "a", "s"} {
+		for _, kind := range []string{"v", "d", "b", "i", "l", "f", "a", "s", "h"} {
 			n := 2
 			if kind == "v" || kind == "f" {
 				n = 1
@@ -963,7 +993,8 @@ func main() {
 	h.streamGetters()
 	lap("getter table")
 	h.streamParse(nParse)
-	lap("parse stream")
+	h.streamFull(nParse / 3)
+	lap("parse stream + full-grammar rendering")
 	h.streamWrite(nWrite)
 	lap("write-back stream")
 	h.streamHistory(nHist, steps)
